@@ -106,9 +106,12 @@ def is_element(e):
     return False
 
 
-def keys_in(an, prog, e, depth=0):
+def keys_in(an, prog, e, depth=0, tmap=None):
     """Variant names used as keys of BTreeMap::get inside expression e (following closures)."""
     out = []
+    if tmap:
+        from ..slicer import subst_types
+        e = an.simp(subst_types(e, tmap))
     for n in find(e, lambda n: n[0] == "call" and n[2] is not None and n[2].npath in GET):
         k = peel(an.simp(n[3][1]))
         if k[0] == "agg":
@@ -118,20 +121,27 @@ def keys_in(an, prog, e, depth=0):
     if depth < 3:
         for c in find(e, lambda n: n[0] == "closure"):
             sub = an.interp.apply(c, [("sym", "x")])
-            out += keys_in(an, prog, sub, depth + 1)
+            out += keys_in(an, prog, sub, depth + 1, tmap)
     return out
 
 
-def generic_target(prog, c):
+def generic_target(prog, c, depth=0, cargs=None):
     """Call of a crate helper generic in the target type: the helper converts with `T::try_from(..)` /
     `..try_into::<T>()` where T is one of its type parameters — T is then the call's generic argument."""
     hb = prog.bodies.get(c.path)
     if hb is None or not c.local:
         return None
     gens = prog.facts["bodies"][c.path].get("generics") or []
+    cargs = cargs if cargs is not None else list(c.args or [])
     for blk, t, cc in hb.calls():
         if cc is None:
             continue
+        if cc.local and cc.kind == "Item" and depth < 3 and cc.path != c.path and cc.path in prog.bodies:
+            # delegation to another generic helper (`get_or` -> `get`): carry the instantiation along
+            sub_args = [cargs[gens.index(a)] if a in gens and gens.index(a) < len(cargs) else a for a in (cc.args or [])]
+            r = generic_target(prog, cc, depth + 1, sub_args)
+            if r:
+                return r
         tp = None
         if cc.nsyn == "std::convert::TryFrom::try_from" and cc.syn_args:
             tp = cc.syn_args[0]
@@ -139,8 +149,8 @@ def generic_target(prog, c):
             tp = cc.syn_args[1]
         if tp is None:
             continue
-        if tp in gens and gens.index(tp) < len(c.args or []):
-            return c.args[gens.index(tp)]
+        if tp in gens and gens.index(tp) < len(cargs):
+            return cargs[gens.index(tp)]
         return tp
     return None
 
@@ -244,6 +254,39 @@ def produced_kinds(an, prog):
     return out, wt
 
 
+def later_field_writes(an, b, agg_stmt_site, name):
+    """Values assigned to `<local>.<name>` after the struct literal that initialises <local> (`flow.x = Some(..)`)."""
+    blk0, s0 = agg_stmt_site
+    pl = s0.get("place") or {}
+    if pl.get("p"):
+        return []
+    out = []
+    for blk, i, st in b.stmts():
+        if st["k"] != "assign" or st is s0:
+            continue
+        p2 = st["place"]
+        pr = p2.get("p") or []
+        if p2["l"] == pl.get("l") and len(pr) == 1 and pr[0]["k"] == "field" and pr[0].get("name") == name:
+            raw = an.slicer(b).rvalue(st["rv"], blk)
+            out.append((an.expand(raw), an.simp(raw)))
+    return out
+
+
+def top_fields(an, prog, fnb, rb):
+    """(version expr, timestamp expr) of the NetflowCommon a conversion returns — read from the conversion's return
+    value with private constructors inlined (`NetflowCommon::new(v, t, flows)`), else from the one aggregate built
+    below it."""
+    ret = peel(an.localx(fnb, 0))
+    if ret[0] == "agg" and ret[1].endswith("NetflowCommon") and "version" in ret[4] and "timestamp" in ret[4]:
+        return peel(ret[3][ret[4].index("version")]), peel(ret[3][ret[4].index("timestamp")])
+    top = [(bb, x) for bb in rb.values() for x in block_aggs(bb) if x[2]["rv"]["adt"].endswith("NetflowCommon")]
+    if top:
+        bb, x = top[0]
+        tf = dict(zip(x[2]["rv"]["fields"], x[2]["rv"]["ops"]))
+        return peel(an.opx(bb, tf["version"])), peel(an.opx(bb, tf["timestamp"]))
+    return None
+
+
 def default_field(prog, an, e):
     """`..Default::default()` struct update: the field of a (derived) Default value of a crate struct; Option fields
     default to None."""
@@ -303,12 +346,9 @@ def run(ctx, env):
                 inner = peel(e[3][0], widen=True)
                 ok = inner[0] == "field" and inner[2] == want and is_element(inner[1])
             ctx.ob("R13.1", fn, "field:%s" % nm, ok, "%s = %s (expected Some(record.%s))" % (nm, canon(e)[:140], want), site=site(s["span"]))
-        top = [(bb, x) for bb in rb.values() for x in block_aggs(bb) if x[2]["rv"]["adt"].endswith("NetflowCommon")]
+        top = top_fields(an, prog, fnb, rb)
         if top:
-            bb, x = top[0]
-            tf = dict(zip(x[2]["rv"]["fields"], x[2]["rv"]["ops"]))
-            v = peel(an.opx(bb, tf["version"]))
-            ts = peel(an.opx(bb, tf["timestamp"]))
+            v, ts = top
             ctx.ob("R13.1", fn, "version", v[0] == "field" and v[2] == "version" and peel(v[1])[0] == "field" and peel(v[1])[2] == "header", canon(v)[:100])
             ctx.ob("R13.1", fn, "timestamp", ts[0] == "field" and ts[2] == "sys_up_time" and peel(ts[1])[2] == "header", canon(ts)[:100])
             # one flow per record, in order: the only collection iterated is value.flowsets, by an order-preserving traversal
@@ -340,13 +380,33 @@ def run(ctx, env):
         discr = {v["name"]: int(v["discr"]) for v in enum["variants"]} if enum else {}
         dtb = prog.impl_fn("variable_versions::data_number::FieldDataType", "From<%s>" % P["enum"], "from")
         dtt = switch_table(an, dtb, lambda e: True) if dtb is not None else None
+        # the flow may be built inside a helper generic over the field-name enum: instantiate its type parameters
+        # with the arguments of the (single) call that reaches it from this conversion
+        tmap = {}
+        gens = prog.facts["bodies"].get(b.path.split("::{closure")[0], {}).get("generics") or []
+        if gens:
+            insts = set()
+            for cb in rb.values():
+                for _, _, cc in cb.calls():
+                    if cc is not None and cc.local and cc.path == b.path.split("::{closure")[0] and len(cc.args or []) == len(gens):
+                        insts.add(tuple(cc.args))
+            if len(insts) == 1:
+                tmap = dict(zip(gens, insts.pop()))
         for nm, o in zip(s["rv"]["fields"], s["rv"]["ops"]):
             e = an.opx(b, o)
-            ks = keys_in(an, prog, e)
+            late = later_field_writes(an, b, (blk, s), nm)
+            if late:
+                e = ("phi", [e] + [x[0] for x in late])
+            if tmap:
+                from ..slicer import subst_types
+                e = an.simp(subst_types(e, tmap))
+            ks = keys_in(an, prog, e, 0, tmap)
             want = P["keys"][nm]
             # which of several keys is preferred when a record carries more than one is not part of the property
             ctx.ob("R13.2", P["fn"], "keys:%s" % nm, sorted(set(ks)) == sorted(set(want)), "%s looks up %s, expected %s" % (nm, ks, want), site=site(s["span"]))
             T = target_of(an, prog, an.op(b, o)) or target_of(an, prog, e)
+            for le in late:
+                T = T or target_of(an, prog, le[1]) or target_of(an, prog, le[0])
             fv, dn = accepted_kinds(an, prog, T) if T else (None, None)
             if fv is None:
                 ctx.ob("R13.3", P["fn"], "target:%s" % nm, False, "cannot determine the conversion target of %s (T=%s)" % (nm, T))
@@ -367,12 +427,9 @@ def run(ctx, env):
                     ok = pv in dn
                     detail += "; width %s -> DataNumber::%s; %s accepts DataNumber::%s" % (w, pv, T, sorted(dn))
                 ctx.ob("R13.3", P["fn"], "kind:%s<-%s" % (nm, key), ok, detail, site=site(s["span"]))
-        top = [(bb, x) for bb in rb.values() for x in block_aggs(bb) if x[2]["rv"]["adt"].endswith("NetflowCommon")]
+        top = top_fields(an, prog, b0, rb)
         if top:
-            tb_, tx = top[0]
-            tf = dict(zip(tx[2]["rv"]["fields"], tx[2]["rv"]["ops"]))
-            v = peel(an.op(tb_, tf["version"]))
-            ts = peel(an.op(tb_, tf["timestamp"]))
+            v, ts = top
             bad = order_preserving(prog, rb)
             ctx.ob("R13.2", P["fn"], "records-in-order", not bad, "reordering/filtering calls below the conversion: %s" % bad)
             ctx.ob("R13.2", P["fn"], "version", v[0] == "field" and v[2] == "version", canon(v)[:100])
